@@ -785,6 +785,7 @@ class QueryBuilder(Selectable, Term):
         newone._updates = copy(self._updates)
         newone._force_indexes = copy(self._force_indexes)
         newone._use_indexes = copy(self._use_indexes)
+        newone._using = copy(self._using)
         return newone
 
     @builder
@@ -1011,7 +1012,7 @@ class QueryBuilder(Selectable, Term):
 
         elif 0 < len(self._groupbys) and isinstance(self._groupbys[-1], Rollup):
             # If a rollup was added last, then append the new terms to the previous rollup
-            self._groupbys[-1].args += terms
+            self._groupbys[-1] = Rollup(*self._groupbys[-1].args, *terms)
 
         else:
             self._groupbys.append(Rollup(*terms))
